@@ -145,15 +145,16 @@ var refusedGenesis = map[string]func(gs map[string]json.RawMessage, cdc codec.Co
 }
 
 type RunOpts struct {
-	CheckTxBefore   bool           `json:"check_tx_before"`
-	SimulateBefore  bool           `json:"simulate_before"`
-	QueriesBetween  bool           `json:"queries_between"`
-	ExtraAt         map[int]string `json:"extra_at"`       // ABCI call index -> "check"|"simulate"|"query"
-	DBDir           string         `json:"db_dir"`         // goleveldb directory ("" = MemDB)
-	StopAt          int            `json:"stop_at"`        // exit the process (os.Exit(3)) right after this ABCI call index; -1 = never
-	Resume          bool           `json:"resume"`         // continue on an existing DBDir: blocks <= committed height are skipped
-	MinGasPrices    string         `json:"min_gas_prices"` // node-local app.toml settings of this replica
-	InterBlockCache bool           `json:"inter_block_cache"`
+	CheckTxBefore      bool           `json:"check_tx_before"`
+	SimulateBefore     bool           `json:"simulate_before"`
+	QueriesBetween     bool           `json:"queries_between"`
+	ExtraAt            map[int]string `json:"extra_at"`       // ABCI call index -> "check"|"simulate"|"query"
+	DBDir              string         `json:"db_dir"`         // goleveldb directory ("" = MemDB)
+	StopAt             int            `json:"stop_at"`        // exit the process (os.Exit(3)) right after this ABCI call index; -1 = never
+	Resume             bool           `json:"resume"`         // continue on an existing DBDir: blocks <= committed height are skipped
+	MinGasPrices       string         `json:"min_gas_prices"` // node-local app.toml settings of this replica
+	InterBlockCache    bool           `json:"inter_block_cache"`
+	RestartAfterCommit bool           `json:"restart_after_commit"` // the node is stopped and started again after every Commit (before the queries)
 }
 
 func hashEvents(evs []abci.Event) string {
@@ -212,6 +213,9 @@ func (e *twinEnv) queryList() []struct {
 		{"/panacea.aol.v2.Query/Writer", &aoltypes.QueryWriterRequest{OwnerAddress: e.B.Bech, TopicName: "g", WriterAddress: e.W.Bech}},
 		{"/panacea.pnft.v2.Query/Denom", &pnfttypes.QueryDenomRequest{Id: "d"}},
 		{"/panacea.pnft.v2.Query/Denom", &pnfttypes.QueryDenomRequest{Id: "dx"}},
+		{"/panacea.pnft.v2.Query/PNFTsByDenomOwner", &pnfttypes.QueryPNFTsByDenomOwnerRequest{DenomId: "d", Owner: e.A.Bech}},
+		{"/panacea.pnft.v2.Query/PNFTsByDenomOwner", &pnfttypes.QueryPNFTsByDenomOwnerRequest{DenomId: "d", Owner: e.B.Bech}},
+		{"/panacea.aol.v2.Query/Writer", &aoltypes.QueryWriterRequest{OwnerAddress: e.A.Bech, TopicName: "a", WriterAddress: e.W.Bech}},
 	}
 }
 
@@ -288,11 +292,33 @@ func (e *twinEnv) mixedOps() []mixedOp {
 				aoltypes.NewMsgAddRecordRequest("nosuchtopic", []byte("k"), []byte("v"), e.W.Bech, e.A.Bech, "")}, Signers: s(e.W), Fee: aolFee}
 		}},
 		// a staking operation: fires the distribution / slashing hooks wired into the staking keeper
+		// (entries from here on are used by the special histories only, not by the exhaustive enumeration: see enumCount)
 		{"Delegate(B->validator,1000stake)", func(w *world.World) world.TxSpec {
 			val := w.App.StakingKeeper.GetAllValidators(w.Ctx())[0]
 			return world.TxSpec{Msgs: []sdk.Msg{stakingtypes.NewMsgDelegate(e.B.Addr, val.GetOperator(), sdk.NewInt64Coin(w.App.StakingKeeper.BondDenom(w.Ctx()), 1000))}, Signers: s(e.B), Fee: aolFee, Gas: 400000}
 		}},
+		one("Burn(d,t,A)", s(e.A), pnfttypes.NewMsgBurnPNFTRequest("d", "t", e.A.Bech)),
+		one("DeleteDenom(d,A)", s(e.A), pnfttypes.NewMsgDeleteDenomRequest("d", e.A.Bech)),
+		one("DeleteWriter(A,a,W);second", s(e.A), aoltypes.NewMsgDeleteWriter("a", e.W.Bech, e.A.Bech)),
 	}
+}
+
+// enumCount: how many entries of mixedOps take part in the exhaustive enumeration of histories (the first ones, up to and
+// including the staking delegation); the rest appear in the special histories (upgrade / long / cleanup cases).
+func (e *twinEnv) enumCount() int { return 18 }
+
+// cleanupCases: histories that empty and remove things (burn the only token, delete the denom, delete the only writer) and go
+// on afterwards: leftovers of removed objects must not be treated differently by a node that restarted.
+func cleanupCases(e *twinEnv, shard, n int) []*histCase {
+	var out []*histCase
+	for i, blocks := range [][][]int{{{18}, {19}, {0, 2}}, {{18, 19}, {}, {8}}, {{4}, {18}, {19, 20}, {2}}} {
+		if (i+9)%n != shard {
+			continue
+		}
+		h, obs := e.buildHistory(blocks)
+		out = append(out, &histCase{blocks: blocks, name: "cleanup " + histName(e.mixedOps(), blocks), hist: h, obsA: obs})
+	}
+	return out
 }
 
 // setupSpecs: the populated base state, built inside the history's first block so that every twin executes it too.
@@ -450,6 +476,9 @@ func (e *twinEnv) execHistory(h History, o RunOpts, db dbm.DB) (res ExecResult) 
 			return
 		}
 		bo.AppHash = hex.EncodeToString(w.Commit())
+		if o.RestartAfterCommit {
+			w.Reopen() // a freshly started process answers queries from committed state only
+		}
 		bo.Queries = e.runQueries(w, 0)
 		bo.State = committedStateHash(w)
 		res.Obs = append(res.Obs, bo)
